@@ -93,6 +93,7 @@ pub fn run(list: &str, ops_path: &str, impl_path: &str, start: usize) {
             if k <= start {
                 continue;
             }
+            progress(&format!("new open {} {}", mode, f));
             let r = open_dump(bytes.clone(), mode == "strict");
             writeln!(ops, "open {} {}", mode, f).unwrap();
             writeln!(imp, "{}", r).unwrap();
